@@ -2,6 +2,8 @@
 // Scenario line: id|chunk_size|accept_encoding_hex or -|gzip_level|METHOD|op,op,...
 //   ops: W<hex> write, L<hex> write_all, F flush, P poll the body once (waker A), Q poll with a second waker B,
 //        D drain: poll (waker A) until Pending / end / error, at most 400000 frames -> d<hex of all data>:<frames>:<shortest frame>:<P|N|E>
+//        I from now on the consumer behind waker A polls the body at once, inside `wake()` (the earliest schedule a real executor
+//          could produce); those polls are reported after the op that caused them as `~<poll result>`
 //        A abort, X drop the writer, R drop the body, G call http_serve::should_gzip on the request headers (-> g0 / g1); `!a/b` after a result = wake-ups of A / B caused by that op
 // Observation: id|status|hdrs|op results, comma separated:
 //   W -> w<k> or we ; L -> lo / le ; F -> fo / fe ; P -> <lower>:<upper|->:<eos>>D<hex> | E | N | P ; A -> a ; X -> x ; R -> r
@@ -25,6 +27,48 @@ struct CountWaker(std::sync::atomic::AtomicUsize);
 impl std::task::Wake for CountWaker {
     fn wake(self: Arc<Self>) {
         self.0.fetch_add(1, std::sync::atomic::Ordering::SeqCst);
+    }
+}
+
+type TheBody = http_serve::Body<bytes::Bytes, BoxError>;
+
+fn poll_once(b: &mut TheBody, cx: &mut Context<'_>) -> String {
+    let h = b.size_hint();
+    let eos = b.is_end_stream();
+    let pre = format!("{}:{}:{}", h.lower(), h.upper().map(|u| u.to_string()).unwrap_or("-".into()), if eos { 1 } else { 0 });
+    let ev = match Pin::new(b).poll_frame(cx) {
+        Poll::Ready(Some(Ok(fr))) => format!("D{}", hex(&fr.into_data().unwrap())),
+        Poll::Ready(Some(Err(_))) => "E".to_string(),
+        Poll::Ready(None) => "N".to_string(),
+        Poll::Pending => "P".to_string(),
+    };
+    format!("{}>{}", pre, ev)
+}
+
+/// Waker A: counts wake-ups and, once enabled (op `I`), polls the body right away from inside `wake()`.
+struct InlineWaker {
+    n: std::sync::atomic::AtomicUsize,
+    enabled: std::sync::atomic::AtomicBool,
+    busy: std::sync::atomic::AtomicBool,
+    body: Arc<Mutex<Option<TheBody>>>,
+    log: Mutex<Vec<String>>,
+    me: Mutex<Option<std::task::Waker>>,
+}
+impl std::task::Wake for InlineWaker {
+    fn wake(self: Arc<Self>) {
+        use std::sync::atomic::Ordering::SeqCst;
+        self.n.fetch_add(1, SeqCst);
+        if self.enabled.load(SeqCst) && !self.busy.swap(true, SeqCst) {
+            if let Ok(mut g) = self.body.try_lock() {
+                if let Some(b) = g.as_mut() {
+                    let w = self.me.lock().unwrap().clone().unwrap();
+                    let mut cx = Context::from_waker(&w);
+                    let r = poll_once(b, &mut cx);
+                    self.log.lock().unwrap().push(r);
+                }
+            }
+            self.busy.store(false, SeqCst);
+        }
     }
 }
 
@@ -61,15 +105,17 @@ fn run_one(line: &str) -> String {
         s.push_str(&hs.join(","));
         s.push_str(if w.is_some() { "|" } else { "|nowriter," });
         let mut w = w;
-        let mut body = Some(resp.into_body());
-        let cw = Arc::new(CountWaker(std::sync::atomic::AtomicUsize::new(0)));
+        let body: Arc<Mutex<Option<TheBody>>> = Arc::new(Mutex::new(Some(resp.into_body())));
+        let cw = Arc::new(InlineWaker { n: std::sync::atomic::AtomicUsize::new(0), enabled: std::sync::atomic::AtomicBool::new(false), busy: std::sync::atomic::AtomicBool::new(false),
+                                        body: body.clone(), log: Mutex::new(Vec::new()), me: Mutex::new(None) });
         let cw_b = Arc::new(CountWaker(std::sync::atomic::AtomicUsize::new(0)));
         let waker = std::task::Waker::from(cw.clone());
+        *cw.me.lock().unwrap() = Some(waker.clone());
         let waker_b = std::task::Waker::from(cw_b.clone());
         let mut res: Vec<String> = Vec::new();
         for op in &ops {
             let (c, arg) = op.split_at(1);
-            let wakes_before = cw.0.load(std::sync::atomic::Ordering::SeqCst);
+            let wakes_before = cw.n.load(std::sync::atomic::Ordering::SeqCst);
             let wakes_before_b = cw_b.0.load(std::sync::atomic::Ordering::SeqCst);
             let mut cx = Context::from_waker(if c_is_q(op) { &waker_b } else { &waker });
             let mut r = match c {
@@ -85,7 +131,8 @@ fn run_one(line: &str) -> String {
                     Some(w) => match w.flush() { Ok(()) => "fo".into(), Err(_) => "fe".into() },
                     None => "f-".into(),
                 },
-                "D" => match body.as_mut() {
+                "I" => { cw.enabled.store(true, std::sync::atomic::Ordering::SeqCst); "i".into() }
+                "D" => match body.lock().unwrap().as_mut() {
                     Some(b) => {
                         let mut data: Vec<u8> = Vec::new();
                         let (mut frames, mut shortest, mut term) = (0usize, usize::MAX, 'L');
@@ -109,28 +156,24 @@ fn run_one(line: &str) -> String {
                 "G" => format!("g{}", if http_serve::should_gzip(req.headers()) { 1 } else { 0 }),
                 "A" => { if let Some(w) = w.as_mut() { w.abort("scripted abort".into()); } "a".into() }
                 "X" => { w = None; "x".into() }
-                "R" => { body = None; "r".into() }
-                "P" | "Q" => match body.as_mut() {
-                    Some(b) => {
-                        let h = b.size_hint();
-                        let eos = b.is_end_stream();
-                        let pre = format!("{}:{}:{}", h.lower(), h.upper().map(|u| u.to_string()).unwrap_or("-".into()), if eos { 1 } else { 0 });
-                        let ev = match Pin::new(b).poll_frame(&mut cx) {
-                            Poll::Ready(Some(Ok(fr))) => format!("D{}", hex(&fr.into_data().unwrap())),
-                            Poll::Ready(Some(Err(_))) => "E".to_string(),
-                            Poll::Ready(None) => "N".to_string(),
-                            Poll::Pending => "P".to_string(),
-                        };
-                        format!("{}>{}", pre, ev)
+                "R" => { let old = body.lock().unwrap().take(); drop(old); "r".into() }
+                "P" | "Q" => {
+                    let mut g = body.lock().unwrap();
+                    match g.as_mut() {
+                        Some(b) => poll_once(b, &mut cx),
+                        None => "p-".into(),
                     }
-                    None => "p-".into(),
-                },
+                }
                 _ => panic!("bad op {}", op),
             };
-            let wakes = cw.0.load(std::sync::atomic::Ordering::SeqCst) - wakes_before;
+            let wakes = cw.n.load(std::sync::atomic::Ordering::SeqCst) - wakes_before;
             let wakes_b = cw_b.0.load(std::sync::atomic::Ordering::SeqCst) - wakes_before_b;
             if wakes > 0 || wakes_b > 0 {
                 r.push_str(&format!("!{}/{}", wakes, wakes_b));
+            }
+            for inl in cw.log.lock().unwrap().drain(..) {
+                r.push('~');
+                r.push_str(&inl);
             }
             res.push(r);
             *out2.lock().unwrap() = format!("{}{}", s, res.join(","));
@@ -166,7 +209,15 @@ fn verif_stream_witness() {
         if line.trim().is_empty() {
             continue;
         }
-        out.push_str(&run_one(line));
+        // watchdog: a scenario that deadlocks (e.g. a wake-up issued while the shared lock is held, with a consumer that
+        // polls at once) is reported as HANG instead of blocking the whole run
+        let (tx, rx) = std::sync::mpsc::channel();
+        let l2 = line.to_string();
+        std::thread::spawn(move || { let _ = tx.send(run_one(&l2)); });
+        match rx.recv_timeout(std::time::Duration::from_secs(20)) {
+            Ok(s) => out.push_str(&s),
+            Err(_) => out.push_str(&format!("{}|0||HANG|-", line.split('|').next().unwrap_or("?"))),
+        }
         out.push('\n');
     }
     std::fs::write(outp, out).unwrap();
